@@ -29,18 +29,25 @@ def _disp(d):
 def rows(tier):
     """mesh rows: dim, coarse cells per axis, level bound (cells on level L are never marked)"""
     R = []
-    def add(name, k, L, ps, disps, mark_trunc=(False,), maxmark=None):
+    def add(name, k, L, ps, disps, mark_trunc=(False,), maxmark=None, mult=None):
         for p in ps:
             for d in disps:
                 for mt in mark_trunc:
                     R.append({"row": name, "k": list(k), "L": L, "p": list(p) if isinstance(p, (list, tuple)) else [p] * len(k),
-                              "disparity": d, "mark_truncate": mt, "maxmark": maxmark})
+                              "disparity": d, "mark_truncate": mt, "maxmark": maxmark, "mult": mult})
     if tier == "quick":
         add("1D-k3-L2", (3,), 2, (1, 2, 3), ("inf", 1, 2), (False, True))
         add("1D-k2-L3", (2,), 3, (1, 2), ("inf", 1, 2))
         add("2D-2x1-L2", (2, 1), 2, (1, 2), ("inf", 1))
         add("2D-2x2-L1", (2, 2), 1, (1, 2, (2, 1)), ("inf", 1), (False, True))
+        # coarse knot vectors with repeated interior knots (multiplicity 2)
+        add("1D-k3-L2-m2", (3,), 2, (2, 3), ("inf", 1), mult=[2])
+        add("2D-2x2-L1-m2", (2, 2), 1, ((2, 3),), ("inf",), mult=[2, 1])
     else:
+        add("1D-k3-L2-m2", (3,), 2, (2, 3, 4), ("inf", 1, 2), (False, True), mult=[2])
+        add("1D-k3-L2-m3", (3,), 2, (3,), ("inf", 1), mult=[3])
+        add("2D-2x1-L2-m2", (2, 1), 2, ((2, 3), (3, 2)), ("inf", 1), mult=[2, 1])
+        add("2D-2x2-L1-m2", (2, 2), 1, ((2, 3), (3, 3)), ("inf", 1), mult=[2, 2])
         add("1D-k3-L2", (3,), 2, (1, 2, 3, 4), ("inf", 1, 2, 3), (False, True))
         add("1D-k4-L2", (4,), 2, (1, 2, 3), ("inf", 1, 2), (False, True))
         add("1D-k2-L3", (2,), 3, (1, 2, 3, 4), ("inf", 1, 2, 3), (False, True))
@@ -67,8 +74,9 @@ _G = {}
 def setup(cfg):
     from pyiga import bspline, hierarchical
     _G.clear()
-    kvs = tuple(bspline.make_knots(p, 0.0, 1.0, k) for p, k in zip(cfg["p"], cfg["k"]))
-    _G.update(cfg=cfg, kvs=kvs, H=hierarchical, model=hmodel.HModel(cfg["p"], cfg["k"]),
+    mult = cfg.get("mult") or [1] * len(cfg["k"])
+    kvs = tuple(bspline.make_knots(p, 0.0, 1.0, k, mult=m) for p, k, m in zip(cfg["p"], cfg["k"], mult))
+    _G.update(cfg=cfg, kvs=kvs, H=hierarchical, model=hmodel.HModel(cfg["p"], cfg["k"], mults=mult),
               disp=_disp(cfg["disparity"]))
 
 
@@ -92,8 +100,10 @@ class State:
         self.last = None      # (marks, returned) of the last transition
 
 
-def new_space(cfg=None, truncate=False, bdspecs=None):
+def new_space(cfg=None, truncate=False, bdspecs="default"):
     cfg = cfg or _G["cfg"]
+    if bdspecs == "default":
+        bdspecs = [(0, 0)]          # one Dirichlet face: makes the lazily cached Dirichlet index structures non-trivial
     return _G["H"].HSpace(_G["kvs"], truncate=truncate, disparity=_G["disp"], bdspecs=bdspecs)
 
 
@@ -153,8 +163,34 @@ def enabled(st):
     return evs
 
 
+def warm(hs):
+    """touch every lazily cached index structure of the space (as an adaptive loop that assembles, smooths or
+    prolongates between two refinements would)"""
+    try:
+        hs.ravel_global
+        hs.index_dirichlet
+        hs.ravel_dirichlet
+        hs.dirichlet_dofs()
+    except Exception:
+        pass
+
+
+def cached_observables(hs):
+    """what the lazily cached structures let a user observe; must not depend on WHEN the caches were filled"""
+    obs = {}
+    obs["ravel_global"] = [[np.asarray(a).tolist() for a in lvl] for lvl in hs.ravel_global]
+    obs["dirichlet_dofs"] = [np.asarray(hs.dirichlet_dofs(lv)).tolist() for lv in range(hs.numlevels)]
+    obs["non_dirichlet_dofs"] = list(map(int, hs.non_dirichlet_dofs()))
+    for strat in ("new", "func_supp", "cell_supp"):
+        obs["smooth:" + strat] = [np.asarray(a).tolist() for a in hs.indices_to_smooth(strat)]
+    if hs.dim >= 2:
+        obs["boundary_map"] = [np.asarray(hs.boundary((ax, sd))[1]).tolist() for ax in range(hs.dim) for sd in (0, 1)]
+    return obs
+
+
 def step(st, ev, history):
     import copy
+    warm(st.hs)                 # the successor is produced from an object whose caches are populated
     s2 = State()
     s2.hs = copy.deepcopy(st.hs)
     s2.refined = [set(x) for x in st.refined]
@@ -214,6 +250,20 @@ def transition_problems(s, ev, s2, history):
         if _norm(hs.hmesh.active[l]) != active[l] or _norm(hs.hmesh.deactivated[l]) != ref[l]:
             probs.append(("cells:successor", "level %d: active/deactivated cells differ from old - marked + children(marked)" % l))
             return probs
+    # differential oracle: the state reached from a warm object (caches filled before the refinement) must be
+    # observably the same as the state reached from the initial space by replaying the history on a fresh object
+    if history is not None and not probs:
+        try:
+            fresh = build(list(history) + [ev])
+            if not fresh.error:
+                a_, b_ = cached_observables(hs), cached_observables(fresh.hs)
+                for k in a_:
+                    if a_[k] != b_[k]:
+                        probs.append(("stale-cache:%s" % k.split(":")[0], "after refining an object whose index caches were already "
+                                      "filled, %s differs from the same space built from scratch" % k))
+                        break
+        except Exception as e:
+            probs.append(("stale-cache:exception:%s" % type(e).__name__, "cached index query raised %r on the refined warm object" % (e,)))
     actf, deactf = M.functions(s2.refined, L)
     for l in range(L):
         a, d = _norm(hs.actfun[l]), _norm(hs.deactfun[l])
@@ -402,15 +452,77 @@ def state_graph(cfg, check=True, workers=None, cap=None):
                            cap_states=cap, workers=workers)
 
 
+def chain_histories(cfg, depth):
+    """all histories of single-cell marks that follow one cell down the levels: call i marks one child of the cell
+    marked by call i-1 (the first call marks any coarse cell)"""
+    dim = len(cfg["k"])
+    hists = []
+    coarse = list(itertools.product(*(range(k) for k in cfg["k"])))
+
+    def rec(h, cell, lv):
+        hists.append(list(h))
+        if lv + 1 >= depth:
+            return
+        for ch in hmodel.HModel.children(cell):
+            rec(h + [((lv + 1, ch),)], ch, lv + 1)
+    for c in coarse:
+        rec([((0, c),)], c, 0)
+    return hists
+
+
+def chain_cases(tier):
+    cases = []
+    def add(k, depth, ps, disps):
+        for p in ps:
+            for d in disps:
+                cfg = {"row": "chain-%s-D%d" % ("x".join(map(str, k)), depth), "k": list(k), "L": depth, "p": [p] * len(k),
+                       "disparity": d, "mark_truncate": False, "maxmark": 1, "mult": None}
+                for h in chain_histories(cfg, depth):
+                    if len(h) == depth:          # maximal chains; every prefix is checked on the way
+                        cases.append({"part": "chain", "cfg": cfg, "history": [[[lv, list(c)] for lv, c in ev] for ev in h]})
+    if tier == "quick":
+        add((4,), 6, (1, 2), (2,))
+        add((2,), 6, (1,), (1, 3))
+        add((2, 2), 4, (1,), (1, 2))
+    else:
+        add((4,), 7, (1, 2, 3), (1, 2, 3))
+        add((2, 2), 5, (1, 2), (1, 2))
+    return cases
+
+
+def chain_problems(case):
+    """replay one maximal chain on the real space; every transition and every intermediate state is checked"""
+    setup(case["cfg"])
+    hist = [tuple((lv, tuple(c)) for lv, c in ev) for ev in case["history"]]
+    probs = []
+    st = build([])
+    for i, ev in enumerate(hist):
+        # a cell of the chain may already have been refined by the disparity closure of an earlier call
+        lv, c = ev[0]
+        if lv >= st.hs.numlevels or tuple(c) not in _norm(st.hs.active_cells(lv)):
+            continue
+        s2 = step(st, ev, hist[:i])
+        probs += transition_problems(st, ev, s2, None)
+        if s2.error:
+            break
+        probs += state_problems(s2, hist[:i + 1], deep=False)
+        if probs:
+            break
+        st = s2
+    return probs
+
+
 def check_case(case):
     if case.get("part") == "region":
         return region_case_problems(case)
+    if case.get("part") == "chain":
+        return _dedupe(chain_problems(case))
     setup(case["cfg"])
     hist = [tuple((lv, tuple(c)) for lv, c in ev) for ev in case["history"]]
     probs = []
     if hist:
         s = build(hist[:-1])
-        s2 = build(hist)
+        s2 = step(s, hist[-1], hist[:-1])
         probs += transition_problems(s, hist[-1], s2, hist[:-1])
         if not s2.error:
             probs += state_problems(s2, hist)
@@ -424,7 +536,18 @@ def check_case(case):
     return out
 
 
+def _dedupe(probs):
+    seen, out = set(), []
+    for k, m in probs:
+        if k not in seen:
+            seen.add(k)
+            out.append((k, m))
+    return out
+
+
 def _region_w(case):
+    if case.get("part") == "chain":
+        return case, _dedupe(chain_problems(case))
     return case, region_case_problems(case)
 
 
@@ -468,17 +591,27 @@ def run(ctx):
     # refine_region
     rcases = []
     for cfg in rows(ctx.tier):
-        if cfg["mark_truncate"] or cfg.get("maxmark"):
+        if cfg["mark_truncate"] or cfg.get("maxmark") or cfg.get("mult"):
             continue
         for pred in PREDICATES:
             rcases.append({"part": "region", "cfg": cfg, "pred": pred, "depth": cfg["L"]})
-    for case, probs in par.pmap(_region_w, rcases, min_parallel=8):
+    ccases = chain_cases(ctx.tier)
+    for case, probs in par.pmap(_region_w, rcases + ccases, min_parallel=8):
+        if case.get("part") == "chain":
+            out.transitions += len(case["history"])
+            out.states += len(case["history"])
+            out.traces += 1
+            out.part("chains", histories=1)
+            out.nontrivial.add(("chain", row_name(case["cfg"]), repr(case["history"])))
+            for key, msg in probs:
+                out.add_violation(key, "%s along the chain %s: %s" % (row_name(case["cfg"]), case["history"], msg), case)
+            continue
         out.transitions += case["depth"]
         out.part("refine_region", cases=1)
         out.nontrivial.add(("region", row_name(case["cfg"]), case["pred"]))
         for key, msg in probs:
             out.add_violation(key, "%s refine_region(%s): %s" % (row_name(case["cfg"]), case["pred"], msg), case)
-    ctx.log("refine_region cases=%d" % len(rcases))
+    ctx.log("refine_region cases=%d, deep single-cell chains=%d" % (len(rcases), len(ccases)))
     out.evaluations = out.transitions
     out.rule = ("BFS to closure over refine() events = every non-empty subset of the active cells below the level bound (all "
                 "levels simultaneously; rows with `maxmark` restrict to subsets of that size plus whole levels) on the real "
